@@ -134,6 +134,10 @@ func (c *Conn) CloseNow() (err error) {
 	defer errd.Wrap(&err, "failed to immediately close WebSocket")
 
 	if !c.casClosing() {
+		// A close handshake is already in progress, started by Close or by
+		// CloseRead's goroutine. It can take 10s if the peer does not cooperate.
+		// CloseNow does not wait for it: closing the connection cuts it short.
+		c.close()
 		err = c.waitGoroutines()
 		if err != nil {
 			return err
